@@ -2,7 +2,7 @@
   C15 - the link between the two models: the abstraction `abs : NodeM → Tree`, the representation
   invariant `repOk`, and `safeAt`, the (state dependent) condition under which an operation of the
   implementation model provably behaves like the specification.  `safeAt` excludes exactly the
-  operation/state combinations on which the transliterated code deviates (see Props/C15.lean for the
+  operation/state combination on which the transliterated (repaired) code still deviates (see Props/C15.lean for the
   witnesses).  Core Lean only; everything is a decidable `Bool`.
 -/
 import SonicSpec.Model.AstNode
@@ -31,9 +31,31 @@ end
 
 def countLive {α : Type} (live : α → Bool) (st : List α) : Nat := (st.filter live).length
 
+/-- first slot holding a live pair with key `k` -/
+def firstLiveKey (k : Key) : List PairM → Option Nat
+  | [] => none
+  | p :: r => if pairLive p && p.2.1 == k then some 0 else (firstLiveKey k r).map (· + 1)
+
+/-- coherence of the hash index with the store: every live pair's hash has an entry, and an entry
+    that names a live pair carrying that hash names the FIRST live pair with its key.  (Entries may
+    also be stale: name an unset pair or a slot that is gone.) -/
+def ixOk (st : List PairM) : Option Index → Bool
+  | none => true
+  | some m =>
+    (List.range st.length).all fun j =>
+      match st[j]? with
+      | some p =>
+        if pairLive p then
+          (match ixGet m p.1 with
+           | none => false
+           | some f => if f = j then firstLiveKey p.2.1 st == some j else true)
+        else true
+      | none => true
+
 mutual
 /-- representation invariant.  Loaded containers: the logical length is the number of live slots,
-    every live slot holds a well-formed node, an emptied pair is the zero `Pair{}` (empty key).
+    every live slot holds a well-formed node, a live pair carries the hash of its key, an emptied
+    pair is the zero `Pair{}` (no hash, empty key), the hash index is coherent (`ixOk`).
     Lazy containers: nothing emptied yet, something still unparsed.  A node in a live position is
     never `gone`. -/
 def NodeM.repOk : NodeM → Bool
@@ -46,13 +68,13 @@ def NodeM.repOk : NodeM → Bool
   | .arrLazy pre rest => repElems pre && allLiveElems pre && !rest.isEmpty
   | .objLazy pre rest => repPairs pre && allLivePairs pre && !rest.isEmpty
   | .arr l st => repElems st && decide (l = countLive NodeM.live st)
-  | .obj l st _ => repPairs st && decide (l = countLive pairLive st)
+  | .obj l st ix => repPairs st && decide (l = countLive pairLive st) && ixOk st ix
 def repElems : List NodeM → Bool
   | [] => true
   | x :: xs => (if x.live then x.repOk else true) && repElems xs
 def repPairs : List (Hash × Key × NodeM) → Bool
   | [] => true
-  | (_, k, v) :: xs => (if v.live then v.repOk else k.isEmpty) && repPairs xs
+  | (h, k, v) :: xs => (if v.live then v.repOk && h == some k else k.isEmpty && h.isNone) && repPairs xs
 def allLiveElems : List NodeM → Bool
   | [] => true
   | x :: xs => x.live && allLiveElems xs
@@ -66,53 +88,37 @@ end
 def Refines (a : Ret × NodeM) (b : Ret × Tree) : Prop :=
   a.1 = b.1 ∧ a.2.abs = b.2 ∧ a.2.repOk = true
 
-/-! ## where the implementation model is known to deviate -/
+/-! ## where the implementation model is known to deviate
 
-/-- key lookup in an object that holds (or is about to get) a hash index, or with the empty key
-    while emptied pairs are around: excluded.  `n` has passed `checkRaw`. -/
-def NodeM.keySafe (n : NodeM) (k : Key) : Bool :=
-  match n with
-  | .obj l st ix => ix.isNone && (!k.isEmpty || st.length == l)
-  | .objLazy pre rest => pre.length + rest.length ≤ 16
-  | _ => true
+With the four C15 repairs in the code only one point is left. -/
 
-/-- `Len()` is excluded while the node is not completely loaded -/
+/-- `Len()` is excluded while the node is not completely loaded: it counts what has been parsed -/
 def NodeM.lenSafe (n : NodeM) : Bool :=
   match n.checkRaw with
   | .arrLazy _ _ => false
   | .objLazy _ _ => false
   | _ => true
 
-/-- `Move` with an index beyond the logical length is excluded while emptied slots are around -/
-def NodeM.moveSafe (n : NodeM) (d s : Nat) : Bool :=
-  match n.checkRaw.skipAll with
-  | .arr l st => st.length == l || (decide (d < l) && decide (s < l))
-  | _ => true
+def Op.isLen : Op → Bool
+  | .len => true
+  | _ => false
 
 def NodeM.safeHere (n : NodeM) : Op → Bool
-  | .get k => n.checkRaw.keySafe k
-  | .set k _ => n.checkRaw.keySafe k
-  | .unset k => n.checkRaw.keySafe k
   | .len => n.lenSafe
-  | .move d s => n.moveSafe d s
   | _ => true
 
-def NodeM.selSafe (n : NodeM) : Sel → Bool
-  | .key k => n.checkRaw.keySafe k
-  | .idx _ => true
-
-/-- the condition along the whole walk (it follows the same `Get`/`Index` calls as `stepAt`) -/
+/-- the condition for an operation addressed through a path: the walk (the same `Get`/`Index`
+    calls as `stepAt`) is always fine, the condition is the one of the addressed node -/
 def NodeM.safeAt (n : NodeM) : List Sel → Op → Bool
   | [], op => n.safeHere op
   | s :: p, op =>
-    n.selSafe s &&
-    (let r := n.locate s
-     match r.2.1 with
-     | none => true
-     | some i =>
-       match r.1.childAt i with
-       | none => true
-       | some c => if c.live then c.safeAt p op else true)
+    let r := n.locate s
+    match r.2 with
+    | none => true
+    | some i =>
+      match r.1.childAt i with
+      | none => true
+      | some c => if c.live then c.safeAt p op else true
 
 def safeStep (n : NodeM) (o : POp) : Bool := n.safeAt o.path o.op
 
